@@ -125,7 +125,7 @@ let parse_arg tok =
           | DVecInt -> VInts (List.map (fun x -> z_of_int (int_of_string x)) p)
           | DVecStr -> VStrs (List.map (fun x -> str_of_string (unhex x)) p)
           | DLevel -> raise (Unsupported "init on level counter"))
-      | "desc" | "hidden" | "nodef" | "def" -> ()
+      | "desc" | "hidden" | "nodef" | "def" | "try" -> ()
       | "" -> ()
       | o -> raise (Unsupported ("option " ^ o))) opts;
   (slot, !d, !init)
@@ -194,11 +194,15 @@ let () =
              List.iter (fun (_, f, _, _) -> if f land (lnot 0xF0) <> 0 then raise (Unsupported "handler flags")) members;
              (* definitions in order: a refused definition is a setup error; in a group the key must be free in
                 every member (crossCheckArguments) = free in the merged table *)
-             let merged = ref [] in
+             let merged = ref [] and dropped = ref [] in
              let build (_, flags, args, cons) =
                let defs = List.map parse_arg (List.rev args) in
-               List.iter (fun (_, d, _) ->
-                   match add_argument !merged d.a_key () with Ok t' -> merged := t' | _ -> raise Setup) defs;
+               (* a refused definition marked "try" is dropped (its slot keeps its initial value) *)
+               let tolerated = List.map (fun t -> List.mem "try" (split_on '/' (String.concat ":" (List.tl (List.tl (List.tl (String.split_on_char ':' t))))))) (List.rev args) in
+               let defs = List.concat (List.map2 (fun (sl, d, i) tol ->
+                   match add_argument !merged d.a_key () with
+                   | Ok t' -> merged := t'; [(sl, d, i)]
+                   | _ -> if tol then (dropped := (sl, i) :: !dropped; []) else raise Setup) defs tolerated) in
                let index_of_key k =
                  let rec go i = function
                    | [] -> raise Setup     (* constraint names an unknown argument *)
@@ -268,7 +272,7 @@ let () =
                     let shown = List.filter (fun (sl, _) -> slot_kind sl <> "af") (List.combine slots s.arts) in
                     let slots = List.map fst shown in
                     let s = { s with arts = List.map snd shown } in
-                    let vals = List.sort compare (show slots s.arts) in
+                    let vals = List.sort compare (show slots s.arts @ List.map (fun (sl, i) -> sl ^ "=" ^ show_value i) !dropped) in
                     Printf.printf "%s ok %s ## -\n" id (String.concat " " vals)
                 | Err e -> Printf.printf "%s err ## %s\n" id (err_name e)
                 | Fault _ -> Printf.printf "%s FAULT ## fault\n" id)
